@@ -5,6 +5,9 @@ From RPFT Require Import Base.Sexp Base.PyStr Base.PyStrFacts Base.Result Gen.Ta
      Flow.RowSem Comp.Compile Comp.CompileFacts Comp.CompileIds Comp.CompileInv Comp.Refine Comp.RefineFacts Comp.RefineStore.
 Import ListNotations.
 
+Section WithNames.
+Context {GN : GenNames}.
+
 Lemma update_same {X} (l : list X) k x : nth_error l k = Some x -> RowSem.update l k x = l.
 Proof. revert k. induction l as [|y r IH]; intros [|k]; cbn; try discriminate; [congruence|]. intros H. rewrite IH by exact H. reflexivity. Qed.
 
@@ -84,7 +87,7 @@ Proof.
   - reflexivity.
   - unfold wait_sim. cbn. destruct Hw as [[-> ->]|[-> ->]]; reflexivity.
   - constructor.
-  - split; cbn; exact I.
+  - split; cbn; [exact gname_other|exact I].
   - constructor.
   - unfold sw_all_cats. cbn. destruct Hw as [[_ ->]|[_ ->]]; cbn; (constructor; [intros []|constructor]).
 Qed.
@@ -103,6 +106,13 @@ Definition ref_add (cls : eclass) (d : rdec) (c : econd) (tgt : dest) : rdec :=
   | _ => add_case nab d (match c_variable c with [] => s_input_text | v => v end) (c_type c) (c_value c) (ref_args c) (c_cname c) tgt
   end.
 
+(* what cond_ok says of the category name, for the two argument lists an edge may be compiled with *)
+Lemma cond_ok_names c : cond_ok c -> name_ok (c_cname c) (ref_args c) /\ name_ok (c_cname c) [None; Some (c_value c)].
+Proof.
+  intros (_ & _ & H). unfold name_ok. destruct (c_cname c) as [|a nm]; [|auto].
+  split; intros k; apply (H k).
+Qed.
+
 Lemma plain_edge_dec phi uu n U cls rt d r c tgt dd r' n' :
   dec_sim phi uu d r -> plain_dec d -> SwOK fresh n U r -> cond_ok c -> dest_sim phi uu tgt dd -> cls_rt cls rt ->
   sw_add_choice fresh n r (match rt with RTOther => or_default (c_variable c) s_input_text | _ => sw_operand r end)
@@ -111,10 +121,10 @@ Lemma plain_edge_dec phi uu n U cls rt d r c tgt dd r' n' :
                 (c_cname c) dd false = Ok (r', n') ->
   dec_sim phi uu (ref_add cls d c tgt) r' /\ plain_dec (ref_add cls d c tgt).
 Proof.
-  intros Hs Hp Hok (Hn & Hra & _) Hd Hcr. rewrite Hn, Hra.
+  intros Hs Hp Hok Hc Hd Hcr. destruct (cond_ok_names c Hc) as [N1 N2]. destruct Hc as (Hra & _ & _). rewrite Hra.
   assert (Ev : (match c_variable c with [] => s_input_text | v => v end) = or_default (c_variable c) s_input_text)
     by (destruct (c_variable c); reflexivity).
-  destruct Hcr; cbn [ref_add]; rewrite ?Hn, ?Ev; intros H.
+  destruct Hcr; cbn [ref_add]; rewrite ?Ev; intros H.
   - eapply dec_sim_add_case; eauto.
   - eapply dec_sim_add_case; eauto.
   - rewrite (ds_operand _ _ _ _ Hs). eapply dec_sim_add_case; eauto.
@@ -197,8 +207,8 @@ Lemma row_edge_sim phi sr sc g k cls n tgt d c n' k1 ks rt sc' :
   exists phi', Sim phi' (RowSem.set_node sr k n') sc' /\ phi_le phi phi'
                /\ (forall k0 c1, k0 <> k -> nth_error phi k0 = Some c1 -> nth_error phi' k0 = Some c1).
 Proof.
-  intros Hsim Hst Hg Hgc Hk Hcok Hd Href Hcomp. destruct Hcok as (Hcn & Hra & Hna).
-  assert (Hcok : cond_ok c) by (split; [exact Hcn|split; [exact Hra|exact Hna]]).
+  intros Hsim Hst Hg Hgc Hk Hcok Hd Href Hcomp. destruct (cond_ok_names c Hcok) as [Hnm1 _].
+  assert (Hra : row_args c = ref_args c) by apply Hcok.
   destruct (exit_view_of phi sr sc g k cls n k1 ks rt Hsim Hg Hgc Hk) as (c0 & Hc0 & -> & -> & Hv).
   unfold row_add_exit in Hcomp. rewrite row_exit_router in Hcomp.
   destruct Hv as [nd e Ho Hnd Hb Hdec Hact Hcont -> ->|ndx clsr r d0 Hndx Hb Hdec Hds Hsh Hcl].
@@ -243,15 +253,15 @@ Proof.
       { apply SwOK_update_default.
         - eapply dest_ok_mono; [|eapply StOK_basic; eauto]. apply incl_appl, incl_refl.
         - eapply SwOK_mono; [| |exact Hok0]; [lia|apply incl_refl]. }
-      destruct (dec_sim_add_case fresh fresh_inj phi' uu' (S n1) _ _ _ variable (c_type c) (c_value c) (ref_args c) tgt d r2 n3
-                  Hds1 ltac:(constructor) Hok1 Hd') as [Hds2 Hpl2].
-      { rewrite Hcn, Hra in Ea. exact Ea. }
+      destruct (dec_sim_add_case fresh fresh_inj phi' uu' (S n1) _ _ _ variable (c_type c) (c_value c) (ref_args c) (c_cname c) tgt d r2 n3
+                  Hds1 ltac:(split; [constructor|split; [reflexivity|destruct timeout; exact I]]) Hok1 Hd' Hnm1) as [Hds2 Hpl2].
+      { rewrite Hra in Ea. exact Ea. }
       exists phi'. split; [|split; [exact Hple|intros k0 c1 Hne0 H0; unfold phi'; rewrite update_nth_other by exact Hne0; exact H0]].
       (* the reference node *)
       assert (En' : n' = mkRNode (rn_actions n)
                      (Some (add_case nab (set_default (fresh_dec variable (match timeout with None => WNone | Some _ => WMsg end) DNone) (rn_cont n))
-                                     variable (c_type c) (c_value c) (ref_args c) [] tgt)) DNone).
-      { unfold variable, timeout, or_default in *. rewrite Hcn in Href. destruct (c_variable c); injection Href as <-; reflexivity. }
+                                     variable (c_type c) (c_value c) (ref_args c) (c_cname c) tgt)) DNone).
+      { unfold variable, timeout, or_default in *. destruct (c_variable c); injection Href as <-; reflexivity. }
       rewrite En'. rewrite Ho. cbn [app].
       eapply (Sim_implicit phi sr sc g k EAction n _ (fst c0) nd); eauto.
       * destruct c0 as [a [b|]]; cbn in *; [discriminate|exact Hgc].
@@ -282,7 +292,8 @@ Proof.
         -- subst n'. unfold noresp_edge. destruct (rd_noresp d0) as [[nm x]|] eqn:Enp.
            ++ destruct (wait_sim_noresp_some _ _ _ _ _ _ Hds Enp) as (t & cw & Ew). rewrite Ew in Hcomp. injection Hcomp as <-.
               exists phi. split; [|split; [apply phi_le_refl|auto]].
-              eapply Sim_dec_update; eauto; try (eapply dec_sim_noresp; eauto); try exact Hsh.
+              eapply Sim_dec_update; eauto; try (eapply dec_sim_noresp; eauto).
+              destruct Hsh as (P1 & P2 & P3). rewrite Enp in P3. split; [exact P1|split; [exact P2|exact P3]].
            ++ pose proof (wait_sim_noresp_none _ _ _ _ Hds Enp) as Hw.
               destruct (sw_wait r); try contradiction; injection Hcomp as <-;
                 (exists phi; split; [rewrite set_node_same by exact Hk; exact Hsim|split; [apply phi_le_refl|auto]]).
@@ -315,3 +326,4 @@ Proof.
            ++ injection Href as <-. injection Hcomp as <-. exists phi. split; [rewrite set_node_same by exact Hk; exact Hsim|split; [apply phi_le_refl|auto]].
 Qed.
 End Edge.
+End WithNames.
